@@ -23,21 +23,22 @@ Theorem C10_exact_partial : forall p q f,
   compile current p = Ok q -> safe_with current false true true true p = true -> wf_fit f = true ->
   forallb (acond_plain f) (attr_tests p) = true ->
   sem q f = eval p f.
-Proof. exact (fun p q f Hq Hs W Hp => compile_exact current false true (or_intror eq_refl) p q f Hq Hs W (or_introl eq_refl) Hp). Qed.
+Proof. exact (fun p q f Hq Hs W Hp => compile_exact current false true true (or_intror eq_refl) (or_introl eq_refl) p q f Hq Hs W (or_introl eq_refl) Hp). Qed.
 
 (* negated attribute tests are exact too when no attribute column holds NULL *)
 Theorem C10_exact_partial_no_null : forall p q f,
   compile current p = Ok q -> safe_with current false true true false p = true -> wf_fit f = true ->
   attrs_defined f = true -> forallb (acond_plain f) (attr_tests p) = true ->
   sem q f = eval p f.
-Proof. exact (fun p q f Hq Hs W D Hp => compile_exact current false false (or_intror eq_refl) p q f Hq Hs W (or_intror D) Hp). Qed.
+Proof. exact (fun p q f Hq Hs W D Hp => compile_exact current false true false (or_intror eq_refl) (or_introl eq_refl) p q f Hq Hs W (or_intror (or_introl D)) Hp). Qed.
 
 (* the junction constructor itself (flatten, group by name, de-duplicate, collapse singletons)
    preserves meaning at every well-formed object, for every list of conditions *)
-Theorem C10_junction_partial : forall f vr ci,
+Theorem C10_junction_partial : forall f vr ci ct,
   (ci = true \/ fix_inverted_merge vr = true) ->
+  (ct = true \/ fix_or_tables vr = true) ->
   forall fuel k conds q,
-    mk_junction vr fuel k conds = Ok q -> merge_ok vr ci true fuel k conds = true ->
+    mk_junction vr fuel k conds = Ok q -> merge_ok vr ci ct fuel k conds = true ->
     forall o, wf_obj o = true -> holds f q o = jsem k (fun m => holds f m o) conds.
 Proof. exact mk_junction_sem. Qed.
 
@@ -90,7 +91,7 @@ Proof. exact total_refuted. Qed.
 
 (* ... and those are the only ways: a well-formed predicate fails to compile only by negating a
    junction (TypeError) or through a merge that needs three tables (AssertionError) *)
-Theorem C10_errors_characterised : forall vr p e,
+Theorem C10_errors_characterised : forall vr, fix_not_junction vr = false -> forall p e,
   wf_pred p = true -> compile vr p = Err e ->
   (e = ETypeError /\ has_not_junction vr p = true) \/ e = EAssertion.
 Proof. exact compile_err. Qed.
@@ -102,6 +103,31 @@ Proof. exact compile_junction_free. Qed.
 (* the model's errors are the code's exceptions: fuel never runs out *)
 Theorem C10_no_fuel : forall vr p, compile vr p <> Err EFuel.
 Proof. exact compile_no_fuel. Qed.
+
+(* ===== the code with the four proposed repairs applied (`next`; switched off in the check until they land):
+   Or-merges only over equal tables, ~InfoQuery as NOT IN, NotCondition as IS NOT TRUE, ~junction by De Morgan.
+   The guard keeps only LIKE-plain strings and the computable condition that negated junctions re-merge;
+   the four former refutations are exact (Witness.next_repairs) ===== *)
+
+Theorem C10_next_exact_partial : forall p q f,
+  compile next p = Ok q -> safe_with next false false true false p = true -> wf_fit f = true ->
+  forallb (acond_plain f) (attr_tests p) = true -> sem q f = eval p f.
+Proof. exact exact_next. Qed.
+
+Theorem C10_next_pipeline_partial : forall p q db top_only keys slices,
+  compile next p = Ok q -> guard_next p db ->
+  run_slices next top_only (ordered keys (select q db)) slices =
+  spec_slices top_only (ordered keys (filter (eval p) db)) slices.
+Proof. exact pipeline_exact_next. Qed.
+
+(* negation is exact for every compiled condition, junctions included, under neg_ok *)
+Theorem C10_invert_partial : forall f vr ci ct ca,
+  (ci = true \/ fix_inverted_merge vr = true) ->
+  (ct = true \/ fix_or_tables vr = true) ->
+  (ca = true \/ attrs_defined f = true \/ fix_not_null vr = true) ->
+  forall q q', invert vr q = Ok q' -> neg_ok vr ci ct true ca q = true ->
+  forall o, wf_obj o = true -> holds f q' o = negb (holds f q o).
+Proof. exact invert_sem. Qed.
 
 (* ===== record of the repaired defects (statements about the code before f11f464 / 127fbf4) ===== *)
 
